@@ -16,7 +16,8 @@ CONSTANTS Universe, TypeDepth0, MaxArgs, MaxItems, RichArgs   \* RichArgs: insta
 \* ---------------------------------------------------------------- types
 ConstQ == {<<c, q>> : c \in BOOLEAN, q \in Quals}
 LeafNames == { <<"double", TRUE>>, <<"unsigned char", TRUE>>, <<"A", FALSE>>, <<"T", FALSE>> }
-LeafQns   == { <<"double">>, <<"unsigned char">>, <<"A">>, <<"ns1", "inner", "Pose3">>, <<"T">>, <<"T", "Value">> }
+LeafQns   == { <<"double">>, <<"unsigned char">>, <<"A">>, <<"ns1", "inner", "Pose3">>, <<"T">>, <<"T", "Value">>,
+               <<"Tools", "Index">>, <<"ns", "T">> }    \* the last two merely contain the parameter's spelling
 IsBasicQn(qn) == Len(qn) = 1 /\ qn[1] \in BasicNames
 Sibling == Ty(<<"Key">>, <<>>, FALSE, "", FALSE)
 TplQns == { <<"std", "vector">>, <<"Tpl">> }
@@ -118,6 +119,7 @@ NsLeaves(n) ==
     Fwd(<<"ns1", nm("F")>>, TRUE, TRUE, <<"ns1", "Base">>),
     Typedef(TN(<<"ns1", "Tpl">>, <<TN(<<"A">>, <<>>)>>), nm("Td")),
     Func(nm("f"), <<>>, Ret1(VoidT), <<>>),
+    Func(nm("g"), <<>>, Ret1(VoidT), <<Arg(IntT, "x", TRUE, "0"), Arg(IntT, "y", TRUE, "1")>>),
     EnumN(nm("E"), "class", <<"X", "Y">>),
     Var(IntT, nm("v"), TRUE, "1") }
 
